@@ -163,7 +163,7 @@ def parse_tr(lst):
 
 EXACT = {1, 2, 3, 4, 5, 10, 11, 12, 13, 15, 19, 20, 21}
 MODEL_ONLY = {8, 17}
-IMPL_ONLY = {18}
+IMPL_ONLY = {18, 22}
 POINTS = {6, 16}
 TRANS = {7, 14}
 OBS_NAMES = {19: "prover outcome class",
